@@ -153,6 +153,7 @@ macro_rules! worker_harness {
         #[kani::stub(std::fs::File::sync_data, crate::kani_support::stubs::file_sync_data)]
         #[kani::stub(std::fs::File::metadata, crate::kani_support::stubs::file_metadata)]
         #[kani::stub(std::fs::remove_file, crate::kani_support::stubs::remove_file)]
+        #[kani::stub(std::vec::Vec::with_capacity, crate::kani_support::stubs::vec_with_capacity)]
         fn $name() {
             let worker = setup($maxf, $mask);
             $script();
@@ -188,182 +189,178 @@ fn sh_tawrw() { w(1, false); a(1); w(1, true); r(0, 0xff); w(0, true); }
 fn sh_aawr2() { a(1); a(2); w(1, true); r(0, 1); }
 
 // ---- c04_w: 1 requests, 1 batching schedules ----
-// @harness name=c04_w_m00 prop=C04 tier=quick timeout=900
+// @harness name=c04_w_m00 prop=C04 tier=quick timeout=1200
 worker_harness!(c04_w_m00, 1, 0, sh_w, 1);
 
 // ---- c04_ww: 2 requests, 2 batching schedules ----
-// @harness name=c04_ww_m00 prop=C04 tier=quick timeout=900
+// @harness name=c04_ww_m00 prop=C04 tier=quick timeout=1200
 worker_harness!(c04_ww_m00, 2, 0, sh_ww, 2);
-// @harness name=c04_ww_m01 prop=C04 tier=quick timeout=900
+// @harness name=c04_ww_m01 prop=C04 tier=quick timeout=1200
 worker_harness!(c04_ww_m01, 2, 1, sh_ww, 2);
 
 // ---- c04_wnw: 2 requests, 2 batching schedules ----
-// @harness name=c04_wnw_m00 prop=C04 tier=quick timeout=900
+// @harness name=c04_wnw_m00 prop=C04 tier=quick timeout=1200
 worker_harness!(c04_wnw_m00, 1, 0, sh_wnw, 1);
-// @harness name=c04_wnw_m01 prop=C04 tier=quick timeout=900
+// @harness name=c04_wnw_m01 prop=C04 tier=quick timeout=1200
 worker_harness!(c04_wnw_m01, 1, 1, sh_wnw, 1);
 
-// ---- c04_wtaw: 4 requests, 8 batching schedules ----
-// @harness name=c04_wtaw_m00 prop=C04 tier=quick timeout=900
-worker_harness!(c04_wtaw_m00, 2, 0, sh_wtaw, 2);
-// @harness name=c04_wtaw_m01 prop=C04 tier=quick timeout=900
-worker_harness!(c04_wtaw_m01, 2, 1, sh_wtaw, 2);
-// @harness name=c04_wtaw_m02 prop=C04 tier=quick timeout=900
-worker_harness!(c04_wtaw_m02, 2, 2, sh_wtaw, 2);
-// @harness name=c04_wtaw_m03 prop=C04 tier=quick timeout=900
-worker_harness!(c04_wtaw_m03, 2, 3, sh_wtaw, 2);
-// @harness name=c04_wtaw_m04 prop=C04 tier=quick timeout=900
-worker_harness!(c04_wtaw_m04, 2, 4, sh_wtaw, 2);
-// @harness name=c04_wtaw_m05 prop=C04 tier=quick timeout=900
-worker_harness!(c04_wtaw_m05, 2, 5, sh_wtaw, 2);
-// @harness name=c04_wtaw_m06 prop=C04 tier=quick timeout=900
-worker_harness!(c04_wtaw_m06, 2, 6, sh_wtaw, 2);
-// @harness name=c04_wtaw_m07 prop=C04 tier=quick timeout=900
-worker_harness!(c04_wtaw_m07, 2, 7, sh_wtaw, 2);
-
 // ---- c04_taww: 4 requests, 8 batching schedules ----
-// @harness name=c04_taww_m00 prop=C04 tier=quick timeout=900
+// @harness name=c04_taww_m00 prop=C04 tier=quick timeout=1200
 worker_harness!(c04_taww_m00, 2, 0, sh_taww, 2);
-// @harness name=c04_taww_m01 prop=C04 tier=quick timeout=900
+// @harness name=c04_taww_m01 prop=C04 tier=quick timeout=1200
 worker_harness!(c04_taww_m01, 2, 1, sh_taww, 2);
-// @harness name=c04_taww_m02 prop=C04 tier=quick timeout=900
+// @harness name=c04_taww_m02 prop=C04 tier=quick timeout=1200
 worker_harness!(c04_taww_m02, 2, 2, sh_taww, 2);
-// @harness name=c04_taww_m03 prop=C04 tier=quick timeout=900
+// @harness name=c04_taww_m03 prop=C04 tier=quick timeout=1200
 worker_harness!(c04_taww_m03, 2, 3, sh_taww, 2);
-// @harness name=c04_taww_m04 prop=C04 tier=quick timeout=900
+// @harness name=c04_taww_m04 prop=C04 tier=quick timeout=1200
 worker_harness!(c04_taww_m04, 2, 4, sh_taww, 2);
-// @harness name=c04_taww_m05 prop=C04 tier=quick timeout=900
+// @harness name=c04_taww_m05 prop=C04 tier=quick timeout=1200
 worker_harness!(c04_taww_m05, 2, 5, sh_taww, 2);
-// @harness name=c04_taww_m06 prop=C04 tier=quick timeout=900
+// @harness name=c04_taww_m06 prop=C04 tier=quick timeout=1200
 worker_harness!(c04_taww_m06, 2, 6, sh_taww, 2);
-// @harness name=c04_taww_m07 prop=C04 tier=quick timeout=900
+// @harness name=c04_taww_m07 prop=C04 tier=quick timeout=1200
 worker_harness!(c04_taww_m07, 2, 7, sh_taww, 2);
 
+// ---- c04_wtaw: 4 requests, 8 batching schedules ----
+// @harness name=c04_wtaw_m00 prop=C04 tier=thorough timeout=1200
+worker_harness!(c04_wtaw_m00, 2, 0, sh_wtaw, 2);
+// @harness name=c04_wtaw_m01 prop=C04 tier=thorough timeout=1200
+worker_harness!(c04_wtaw_m01, 2, 1, sh_wtaw, 2);
+// @harness name=c04_wtaw_m02 prop=C04 tier=thorough timeout=1200
+worker_harness!(c04_wtaw_m02, 2, 2, sh_wtaw, 2);
+// @harness name=c04_wtaw_m03 prop=C04 tier=thorough timeout=1200
+worker_harness!(c04_wtaw_m03, 2, 3, sh_wtaw, 2);
+// @harness name=c04_wtaw_m04 prop=C04 tier=thorough timeout=1200
+worker_harness!(c04_wtaw_m04, 2, 4, sh_wtaw, 2);
+// @harness name=c04_wtaw_m05 prop=C04 tier=thorough timeout=1200
+worker_harness!(c04_wtaw_m05, 2, 5, sh_wtaw, 2);
+// @harness name=c04_wtaw_m06 prop=C04 tier=thorough timeout=1200
+worker_harness!(c04_wtaw_m06, 2, 6, sh_wtaw, 2);
+// @harness name=c04_wtaw_m07 prop=C04 tier=thorough timeout=1200
+worker_harness!(c04_wtaw_m07, 2, 7, sh_wtaw, 2);
+
 // ---- c04_aww: 3 requests, 4 batching schedules ----
-// @harness name=c04_aww_m00 prop=C04 tier=quick timeout=900
+// @harness name=c04_aww_m00 prop=C04 tier=thorough timeout=1200
 worker_harness!(c04_aww_m00, 2, 0, sh_aww, 2);
-// @harness name=c04_aww_m01 prop=C04 tier=quick timeout=900
+// @harness name=c04_aww_m01 prop=C04 tier=thorough timeout=1200
 worker_harness!(c04_aww_m01, 2, 1, sh_aww, 2);
-// @harness name=c04_aww_m02 prop=C04 tier=quick timeout=900
+// @harness name=c04_aww_m02 prop=C04 tier=thorough timeout=1200
 worker_harness!(c04_aww_m02, 2, 2, sh_aww, 2);
-// @harness name=c04_aww_m03 prop=C04 tier=quick timeout=900
+// @harness name=c04_aww_m03 prop=C04 tier=thorough timeout=1200
 worker_harness!(c04_aww_m03, 2, 3, sh_aww, 2);
 
 // ---- c04_tataw: 5 requests, 16 batching schedules ----
-// @harness name=c04_tataw_m00 prop=C04 tier=thorough timeout=900
+// @harness name=c04_tataw_m00 prop=C04 tier=thorough timeout=1200
 worker_harness!(c04_tataw_m00, 2, 0, sh_tataw, 1);
-// @harness name=c04_tataw_m01 prop=C04 tier=thorough timeout=900
+// @harness name=c04_tataw_m01 prop=C04 tier=thorough timeout=1200
 worker_harness!(c04_tataw_m01, 2, 1, sh_tataw, 1);
-// @harness name=c04_tataw_m02 prop=C04 tier=thorough timeout=900
+// @harness name=c04_tataw_m02 prop=C04 tier=thorough timeout=1200
 worker_harness!(c04_tataw_m02, 2, 2, sh_tataw, 1);
-// @harness name=c04_tataw_m03 prop=C04 tier=thorough timeout=900
+// @harness name=c04_tataw_m03 prop=C04 tier=thorough timeout=1200
 worker_harness!(c04_tataw_m03, 2, 3, sh_tataw, 1);
-// @harness name=c04_tataw_m04 prop=C04 tier=thorough timeout=900
+// @harness name=c04_tataw_m04 prop=C04 tier=thorough timeout=1200
 worker_harness!(c04_tataw_m04, 2, 4, sh_tataw, 1);
-// @harness name=c04_tataw_m05 prop=C04 tier=thorough timeout=900
+// @harness name=c04_tataw_m05 prop=C04 tier=thorough timeout=1200
 worker_harness!(c04_tataw_m05, 2, 5, sh_tataw, 1);
-// @harness name=c04_tataw_m06 prop=C04 tier=thorough timeout=900
+// @harness name=c04_tataw_m06 prop=C04 tier=thorough timeout=1200
 worker_harness!(c04_tataw_m06, 2, 6, sh_tataw, 1);
-// @harness name=c04_tataw_m07 prop=C04 tier=thorough timeout=900
+// @harness name=c04_tataw_m07 prop=C04 tier=thorough timeout=1200
 worker_harness!(c04_tataw_m07, 2, 7, sh_tataw, 1);
-// @harness name=c04_tataw_m08 prop=C04 tier=thorough timeout=900
+// @harness name=c04_tataw_m08 prop=C04 tier=thorough timeout=1200
 worker_harness!(c04_tataw_m08, 2, 8, sh_tataw, 1);
-// @harness name=c04_tataw_m09 prop=C04 tier=thorough timeout=900
+// @harness name=c04_tataw_m09 prop=C04 tier=thorough timeout=1200
 worker_harness!(c04_tataw_m09, 2, 9, sh_tataw, 1);
-// @harness name=c04_tataw_m10 prop=C04 tier=thorough timeout=900
+// @harness name=c04_tataw_m10 prop=C04 tier=thorough timeout=1200
 worker_harness!(c04_tataw_m10, 2, 10, sh_tataw, 1);
-// @harness name=c04_tataw_m11 prop=C04 tier=thorough timeout=900
+// @harness name=c04_tataw_m11 prop=C04 tier=thorough timeout=1200
 worker_harness!(c04_tataw_m11, 2, 11, sh_tataw, 1);
-// @harness name=c04_tataw_m12 prop=C04 tier=thorough timeout=900
+// @harness name=c04_tataw_m12 prop=C04 tier=thorough timeout=1200
 worker_harness!(c04_tataw_m12, 2, 12, sh_tataw, 1);
-// @harness name=c04_tataw_m13 prop=C04 tier=thorough timeout=900
+// @harness name=c04_tataw_m13 prop=C04 tier=thorough timeout=1200
 worker_harness!(c04_tataw_m13, 2, 13, sh_tataw, 1);
-// @harness name=c04_tataw_m14 prop=C04 tier=thorough timeout=900
+// @harness name=c04_tataw_m14 prop=C04 tier=thorough timeout=1200
 worker_harness!(c04_tataw_m14, 2, 14, sh_tataw, 1);
-// @harness name=c04_tataw_m15 prop=C04 tier=thorough timeout=900
+// @harness name=c04_tataw_m15 prop=C04 tier=thorough timeout=1200
 worker_harness!(c04_tataw_m15, 2, 15, sh_tataw, 1);
 
 // ---- c08_awr: 3 requests, 4 batching schedules ----
-// @harness name=c08_awr_m00 prop=C08 tier=quick timeout=900
+// @harness name=c08_awr_m00 prop=C08 tier=quick timeout=1200
 worker_harness!(c08_awr_m00, 1, 0, sh_awr, 1);
-// @harness name=c08_awr_m01 prop=C08 tier=quick timeout=900
+// @harness name=c08_awr_m01 prop=C08 tier=quick timeout=1200
 worker_harness!(c08_awr_m01, 1, 1, sh_awr, 1);
-// @harness name=c08_awr_m02 prop=C08 tier=quick timeout=900
+// @harness name=c08_awr_m02 prop=C08 tier=quick timeout=1200
 worker_harness!(c08_awr_m02, 1, 2, sh_awr, 1);
-// @harness name=c08_awr_m03 prop=C08 tier=quick timeout=900
+// @harness name=c08_awr_m03 prop=C08 tier=quick timeout=1200
 worker_harness!(c08_awr_m03, 1, 3, sh_awr, 1);
 
 // ---- c08_awrw: 4 requests, 8 batching schedules ----
-// @harness name=c08_awrw_m00 prop=C08 tier=quick timeout=900
+// @harness name=c08_awrw_m00 prop=C08 tier=quick timeout=1200
 worker_harness!(c08_awrw_m00, 2, 0, sh_awrw, 2);
-// @harness name=c08_awrw_m01 prop=C08 tier=quick timeout=900
+// @harness name=c08_awrw_m01 prop=C08 tier=quick timeout=1200
 worker_harness!(c08_awrw_m01, 2, 1, sh_awrw, 2);
-// @harness name=c08_awrw_m02 prop=C08 tier=quick timeout=900
+// @harness name=c08_awrw_m02 prop=C08 tier=quick timeout=1200
 worker_harness!(c08_awrw_m02, 2, 2, sh_awrw, 2);
-// @harness name=c08_awrw_m03 prop=C08 tier=quick timeout=900
+// @harness name=c08_awrw_m03 prop=C08 tier=quick timeout=1200
 worker_harness!(c08_awrw_m03, 2, 3, sh_awrw, 2);
-// @harness name=c08_awrw_m04 prop=C08 tier=quick timeout=900
+// @harness name=c08_awrw_m04 prop=C08 tier=quick timeout=1200
 worker_harness!(c08_awrw_m04, 2, 4, sh_awrw, 2);
-// @harness name=c08_awrw_m05 prop=C08 tier=quick timeout=900
+// @harness name=c08_awrw_m05 prop=C08 tier=quick timeout=1200
 worker_harness!(c08_awrw_m05, 2, 5, sh_awrw, 2);
-// @harness name=c08_awrw_m06 prop=C08 tier=quick timeout=900
+// @harness name=c08_awrw_m06 prop=C08 tier=quick timeout=1200
 worker_harness!(c08_awrw_m06, 2, 6, sh_awrw, 2);
-// @harness name=c08_awrw_m07 prop=C08 tier=quick timeout=900
+// @harness name=c08_awrw_m07 prop=C08 tier=quick timeout=1200
 worker_harness!(c08_awrw_m07, 2, 7, sh_awrw, 2);
 
-// ---- c08_tawrw: 5 requests, 16 batching schedules ----
-// @harness name=c08_tawrw_m00 prop=C08 tier=thorough timeout=900
-worker_harness!(c08_tawrw_m00, 2, 0, sh_tawrw, 2);
-// @harness name=c08_tawrw_m01 prop=C08 tier=thorough timeout=900
-worker_harness!(c08_tawrw_m01, 2, 1, sh_tawrw, 2);
-// @harness name=c08_tawrw_m02 prop=C08 tier=thorough timeout=900
-worker_harness!(c08_tawrw_m02, 2, 2, sh_tawrw, 2);
-// @harness name=c08_tawrw_m03 prop=C08 tier=thorough timeout=900
-worker_harness!(c08_tawrw_m03, 2, 3, sh_tawrw, 2);
-// @harness name=c08_tawrw_m04 prop=C08 tier=thorough timeout=900
-worker_harness!(c08_tawrw_m04, 2, 4, sh_tawrw, 2);
-// @harness name=c08_tawrw_m05 prop=C08 tier=thorough timeout=900
-worker_harness!(c08_tawrw_m05, 2, 5, sh_tawrw, 2);
-// @harness name=c08_tawrw_m06 prop=C08 tier=thorough timeout=900
-worker_harness!(c08_tawrw_m06, 2, 6, sh_tawrw, 2);
-// @harness name=c08_tawrw_m07 prop=C08 tier=thorough timeout=900
-worker_harness!(c08_tawrw_m07, 2, 7, sh_tawrw, 2);
-// @harness name=c08_tawrw_m08 prop=C08 tier=thorough timeout=900
-worker_harness!(c08_tawrw_m08, 2, 8, sh_tawrw, 2);
-// @harness name=c08_tawrw_m09 prop=C08 tier=thorough timeout=900
-worker_harness!(c08_tawrw_m09, 2, 9, sh_tawrw, 2);
-// @harness name=c08_tawrw_m10 prop=C08 tier=thorough timeout=900
-worker_harness!(c08_tawrw_m10, 2, 10, sh_tawrw, 2);
-// @harness name=c08_tawrw_m11 prop=C08 tier=thorough timeout=900
-worker_harness!(c08_tawrw_m11, 2, 11, sh_tawrw, 2);
-// @harness name=c08_tawrw_m12 prop=C08 tier=thorough timeout=900
-worker_harness!(c08_tawrw_m12, 2, 12, sh_tawrw, 2);
-// @harness name=c08_tawrw_m13 prop=C08 tier=thorough timeout=900
-worker_harness!(c08_tawrw_m13, 2, 13, sh_tawrw, 2);
-// @harness name=c08_tawrw_m14 prop=C08 tier=thorough timeout=900
-worker_harness!(c08_tawrw_m14, 2, 14, sh_tawrw, 2);
-// @harness name=c08_tawrw_m15 prop=C08 tier=thorough timeout=900
-worker_harness!(c08_tawrw_m15, 2, 15, sh_tawrw, 2);
-
 // ---- c08_aawr2: 4 requests, 8 batching schedules ----
-// @harness name=c08_aawr2_m00 prop=C08 tier=quick timeout=900
+// @harness name=c08_aawr2_m00 prop=C08 tier=thorough timeout=1200
 worker_harness!(c08_aawr2_m00, 1, 0, sh_aawr2, 1);
-// @harness name=c08_aawr2_m01 prop=C08 tier=quick timeout=900
+// @harness name=c08_aawr2_m01 prop=C08 tier=thorough timeout=1200
 worker_harness!(c08_aawr2_m01, 1, 1, sh_aawr2, 1);
-// @harness name=c08_aawr2_m02 prop=C08 tier=quick timeout=900
+// @harness name=c08_aawr2_m02 prop=C08 tier=thorough timeout=1200
 worker_harness!(c08_aawr2_m02, 1, 2, sh_aawr2, 1);
-// @harness name=c08_aawr2_m03 prop=C08 tier=quick timeout=900
+// @harness name=c08_aawr2_m03 prop=C08 tier=thorough timeout=1200
 worker_harness!(c08_aawr2_m03, 1, 3, sh_aawr2, 1);
-// @harness name=c08_aawr2_m04 prop=C08 tier=quick timeout=900
+// @harness name=c08_aawr2_m04 prop=C08 tier=thorough timeout=1200
 worker_harness!(c08_aawr2_m04, 1, 4, sh_aawr2, 1);
-// @harness name=c08_aawr2_m05 prop=C08 tier=quick timeout=900
+// @harness name=c08_aawr2_m05 prop=C08 tier=thorough timeout=1200
 worker_harness!(c08_aawr2_m05, 1, 5, sh_aawr2, 1);
-// @harness name=c08_aawr2_m06 prop=C08 tier=quick timeout=900
+// @harness name=c08_aawr2_m06 prop=C08 tier=thorough timeout=1200
 worker_harness!(c08_aawr2_m06, 1, 6, sh_aawr2, 1);
-// @harness name=c08_aawr2_m07 prop=C08 tier=quick timeout=900
+// @harness name=c08_aawr2_m07 prop=C08 tier=thorough timeout=1200
 worker_harness!(c08_aawr2_m07, 1, 7, sh_aawr2, 1);
 
-// @harness name=zz_c04_probe_f0 prop=PROBE tier=never timeout=600
-worker_harness!(zz_c04_probe_f0, 0, 0, sh_taww, 2);
-// @harness name=zz_c04_probe_f2 prop=PROBE tier=never timeout=600
-worker_harness!(zz_c04_probe_f2, 2, 0, sh_taww, 2);
+// ---- c08_tawrw: 5 requests, 16 batching schedules ----
+// @harness name=c08_tawrw_m00 prop=C08 tier=thorough timeout=1200
+worker_harness!(c08_tawrw_m00, 2, 0, sh_tawrw, 2);
+// @harness name=c08_tawrw_m01 prop=C08 tier=thorough timeout=1200
+worker_harness!(c08_tawrw_m01, 2, 1, sh_tawrw, 2);
+// @harness name=c08_tawrw_m02 prop=C08 tier=thorough timeout=1200
+worker_harness!(c08_tawrw_m02, 2, 2, sh_tawrw, 2);
+// @harness name=c08_tawrw_m03 prop=C08 tier=thorough timeout=1200
+worker_harness!(c08_tawrw_m03, 2, 3, sh_tawrw, 2);
+// @harness name=c08_tawrw_m04 prop=C08 tier=thorough timeout=1200
+worker_harness!(c08_tawrw_m04, 2, 4, sh_tawrw, 2);
+// @harness name=c08_tawrw_m05 prop=C08 tier=thorough timeout=1200
+worker_harness!(c08_tawrw_m05, 2, 5, sh_tawrw, 2);
+// @harness name=c08_tawrw_m06 prop=C08 tier=thorough timeout=1200
+worker_harness!(c08_tawrw_m06, 2, 6, sh_tawrw, 2);
+// @harness name=c08_tawrw_m07 prop=C08 tier=thorough timeout=1200
+worker_harness!(c08_tawrw_m07, 2, 7, sh_tawrw, 2);
+// @harness name=c08_tawrw_m08 prop=C08 tier=thorough timeout=1200
+worker_harness!(c08_tawrw_m08, 2, 8, sh_tawrw, 2);
+// @harness name=c08_tawrw_m09 prop=C08 tier=thorough timeout=1200
+worker_harness!(c08_tawrw_m09, 2, 9, sh_tawrw, 2);
+// @harness name=c08_tawrw_m10 prop=C08 tier=thorough timeout=1200
+worker_harness!(c08_tawrw_m10, 2, 10, sh_tawrw, 2);
+// @harness name=c08_tawrw_m11 prop=C08 tier=thorough timeout=1200
+worker_harness!(c08_tawrw_m11, 2, 11, sh_tawrw, 2);
+// @harness name=c08_tawrw_m12 prop=C08 tier=thorough timeout=1200
+worker_harness!(c08_tawrw_m12, 2, 12, sh_tawrw, 2);
+// @harness name=c08_tawrw_m13 prop=C08 tier=thorough timeout=1200
+worker_harness!(c08_tawrw_m13, 2, 13, sh_tawrw, 2);
+// @harness name=c08_tawrw_m14 prop=C08 tier=thorough timeout=1200
+worker_harness!(c08_tawrw_m14, 2, 14, sh_tawrw, 2);
+// @harness name=c08_tawrw_m15 prop=C08 tier=thorough timeout=1200
+worker_harness!(c08_tawrw_m15, 2, 15, sh_tawrw, 2);
+
